@@ -282,6 +282,32 @@ func checkC01(c *Ctx) (int, error) {
 		cs.Ops = append(cs.Ops, Op{Op: "C"})
 		cases = append(cases, cs)
 	}
+	// Huffman-only streams of exactly one, two or three full 64 KiB blocks and no Flush: Close finds
+	// nothing buffered while the bit accumulator still holds the end of the last block (how many bits
+	// depends on the data: many data seeds per size), in one Write and in pieces
+	nFull := 36
+	if c.Tier == "thorough" {
+		nFull = 360
+	}
+	for i := 0; i < nFull; i++ {
+		set := WSetting{Kind: []string{"flate", "flate", "gzip", "zlib"}[i%4], Level: -2, Window: 32768}
+		if i%4 == 1 {
+			set.Window = 4096
+		}
+		n := 65536 * (1 + i%3)
+		cs := &WCase{ID: fmt.Sprintf("C01-fullblocks-%d", i), Set: set, Tag: settingTag(set) + "|fullblocks", Data: randData(rng, n)}
+		left := n
+		for left > 0 {
+			k := left
+			if i%2 == 1 {
+				k = minInt(left, 1+rng.Intn(n/2))
+			}
+			cs.Ops = append(cs.Ops, Op{Op: "W", N: k})
+			left -= k
+		}
+		cs.Ops = append(cs.Ops, Op{Op: "C"})
+		cases = append(cases, cs)
+	}
 	// inputs made mostly of far back-references of every length (the vector encoders pack eight tokens at a time)
 	nCopies := 60
 	if c.Tier == "thorough" {
